@@ -78,15 +78,19 @@ def main():
                     classes = re.findall(r"^  class=(\S+)", out, re.M)
                     entry = {"exit": rc, "violations": len(viol), "classes": classes[:6]}
                     if rc == 1 and viol:
-                        # replay the first replay file in a fresh process: it must reproduce
-                        path = viol[0][1]
-                        if os.path.exists(path):
+                        # replay the replay files in fresh processes, first to last, until one reproduces
+                        entry["replay_reproduced"] = False
+                        for k, (_, path) in enumerate(viol[:6]):
+                            if not os.path.exists(path):
+                                continue
                             rrc, rout = sh([f"{tmp}/target/checked/sim", "replay", path])
-                            entry["replay_reproduced"] = ("REPLAY-REPRODUCED" in rout)
-                            j = json.load(open(path))
-                            entry["minimised_to"] = j.get("minimised_to")
-                        else:
-                            entry["replay_reproduced"] = False
+                            if "REPLAY-REPRODUCED" in rout:
+                                entry["replay_reproduced"] = True
+                                j = json.load(open(path))
+                                entry["minimised_to"] = j.get("minimised_to")
+                                if k < len(classes):
+                                    entry["classes"] = [classes[k]] + [c for i, c in enumerate(classes) if i != k][:5]
+                                break
                     elif rc not in (0, 1):
                         entry["error"] = out[-500:]
                     row["checks"][p] = entry
